@@ -559,6 +559,10 @@ Start ==   \* (re)start on a fresh channel: a new generation
 SendFailArmed == IsEvent("SendFailArmed") /\ sendBad' = TRUE
                  /\ UNCHANGED <<conc, push, mem, units, rq, used, running, stopped, pend, causes, cancelOK, hcanc, cbs, notes, waitRet, rdDone, stopOpen>>
 
+\* the transient failure is over: Sends work again (what failed meanwhile stays failed; nothing is sent twice)
+SendHealed == IsEvent("SendHealed") /\ sendBad' = FALSE
+              /\ UNCHANGED <<conc, push, mem, units, rq, used, running, stopped, pend, causes, cancelOK, hcanc, cbs, notes, waitRet, rdDone, stopOpen>>
+
 Final ==
   /\ IsEvent("Final")
   /\ Imp("C07", Ev.reserved = 0)         \* no reservation survives the connection
@@ -599,7 +603,7 @@ Terminal == /\ l <= Len(Trace) /\ Ev.ev \in {"Crash", "Deadlock", "Leak"}
 Next == \/ Reset \/ Start \/ RecvMsg \/ Enqueue \/ Dequeue \/ Dispatch \/ HStart \/ HCancel \/ HExit
         \/ SendOK \/ SendFailed \/ StopB \/ StopE \/ RecvErr \/ ChClose \/ CancelB \/ CancelE \/ BaseEnd
         \/ NotifyB \/ NotifyE \/ CallbackB \/ CtxEnd \/ CallbackE \/ WaitStatus \/ Quiescent
-        \/ SendFailArmed \/ Final \/ BarrierPass \/ Ignored \/ Terminal \/ QuiescentOp
+        \/ SendFailArmed \/ Final \/ BarrierPass \/ Ignored \/ Terminal \/ QuiescentOp \/ SendHealed
 
 Spec == Init /\ [][Next]_vars
 
